@@ -42,8 +42,7 @@ def do_repeat():
                 pass
             else:
                 method = func.__name__.replace("on_enter_", "do_repeat_")
-                function = getattr(self._proxy, method)
-                function.defer()
+                self.do_delay(0, method)
 
         return wrapped_func
 
@@ -68,6 +67,7 @@ class PoupoolActor(pykka.ThreadingActor):
         super().__init__()
         self._proxy = self.actor_ref.proxy()
         self.__timer = None
+        self.__token = 0
 
     def on_failure(self, exception_type, exception_value, traceback):
         # The actor is going to die
@@ -87,6 +87,9 @@ class PoupoolActor(pykka.ThreadingActor):
         if self.__timer:
             self.__timer.cancel()
             self.__timer = None
+        # A timer which has already fired cannot be cancelled anymore, its call is waiting in the
+        # inbox. Changing the token invalidates it.
+        self.__token += 1
 
     def do_cancel(self):
         self.__do_cancel()
@@ -96,9 +99,15 @@ class PoupoolActor(pykka.ThreadingActor):
         assert delay >= 0
         # Stop an already running timer
         self.__do_cancel()
-        func = getattr(self._proxy, method)
+        assert callable(getattr(self, method))
+        func = self._proxy.do_delayed
         if delay > 0:
-            self.__timer = Timer(delay, func.defer, *args, **kwargs)
+            self.__timer = Timer(delay, func.defer, (self.__token, method, *args), kwargs)
             self.__timer.start()
         else:
-            func.defer(*args, **kwargs)
+            func.defer(self.__token, method, *args, **kwargs)
+
+    def do_delayed(self, token, method, *args, **kwargs):
+        # Ignore the call if do_cancel() or another do_delay() ran since it was scheduled
+        if token == self.__token:
+            getattr(self, method)(*args, **kwargs)
